@@ -27,7 +27,9 @@ type plmnImsi struct{ imsi, mcc, mnc string }
 var n2imsis = []plmnImsi{{"001010000000001", "001", "01"}, {"00101000000001", "001", "01"}, {"208930000000009", "208", "93"}, {"001001000000001", "001", "001"},
 	{"310410123456789", "310", "410"}, {"999999999999990", "999", "999"}, {"001010000099998", "001", "01"},
 	// the second UE's identity needs a carry through one / several 9s
-	{"001010000000099", "001", "01"}, {"001010099999999", "001", "01"}}
+	{"001010000000099", "001", "01"}, {"001010099999999", "001", "01"},
+	// even number of digits together with a 3-digit MNC; a short IMSI
+	{"00100100000001", "001", "001"}, {"310410123456", "310", "410"}}
 
 // n2config picks the configuration dimensions (C01/C18) from the chooser.
 func n2config(c *explore.Chooser) (n2.EmuConfig, refamf.Config) {
@@ -89,6 +91,7 @@ func n2choices(c *explore.Chooser) refamf.Choices {
 		}
 	}
 	ch.NGSetupShape = c.Pick("NGSetupResponse-shape", 3)
+	ch.PerUE = c.Pick("per-UE-RAND/SQN", 4)
 	if c.Pick("SMC+IMEISV-request", 2) == 1 {
 		ch.SMCOpt |= 1
 	}
